@@ -148,10 +148,11 @@ func Programs(tier string) []Prog {
 		}
 	}
 	// F3: observers
-	obs := [][]Op{{{Kind: OpSize}, {Kind: OpArray}}, {{Kind: OpEmpty}, {Kind: OpIter}}, {{Kind: OpArray}, {Kind: OpSize}, {Kind: OpEmpty}}}
+	// (an observer that looks twice sees what an earlier look may have left behind: a cached view)
+	obs := [][]Op{{{Kind: OpSize}, {Kind: OpArray}}, {{Kind: OpEmpty}, {Kind: OpIter}}, {{Kind: OpArray}, {Kind: OpSize}, {Kind: OpEmpty}}, {{Kind: OpArray}, {Kind: OpArray}}, {{Kind: OpIter}, {Kind: OpSize}, {Kind: OpArray}}}
 	for _, c := range caps {
 		for oi, o := range obs {
-			if !thorough && oi == 2 && c == 2 {
+			if !thorough && (oi == 2 || oi == 4) && c == 2 {
 				continue
 			}
 			add(Prog{Family: "observer", Capacity: c, Scripts: []Script{producer(1, 2), consumer(1, 2), {Name: "O", Ops: o}}})
